@@ -249,6 +249,17 @@ type decoder struct {
 	rd io.Reader
 }
 
+// remaining returns the number of bytes left to decode when the underlying
+// reader can tell (a *bytes.Reader can), and -1 otherwise. It is used to
+// refuse length and count fields that claim more than the input holds,
+// before anything is allocated for them.
+func (d *decoder) remaining() int {
+	if l, ok := d.rd.(interface{ Len() int }); ok {
+		return l.Len()
+	}
+	return -1
+}
+
 // read9p extracts values from rd and unmarshals them to the targets of vs.
 func (d *decoder) decode(vs ...interface{}) error {
 	for _, v := range vs {
@@ -262,6 +273,11 @@ func (d *decoder) decode(vs ...interface{}) error {
 
 			if err := d.decode(&ll); err != nil {
 				return err
+			}
+
+			if rem := d.remaining(); rem >= 0 && int64(ll) > int64(rem) {
+				// the claimed length exceeds what is left of the message
+				return io.ErrUnexpectedEOF
 			}
 
 			if ll > 0 {
@@ -298,6 +314,11 @@ func (d *decoder) decode(vs ...interface{}) error {
 				return err
 			}
 
+			if rem := d.remaining(); rem >= 0 && int(ll)*2 > rem {
+				// every element takes at least its 2-byte length
+				return io.ErrUnexpectedEOF
+			}
+
 			elements := make([]interface{}, int(ll))
 			*v = make([]string, int(ll))
 			for i := range elements {
@@ -323,6 +344,11 @@ func (d *decoder) decode(vs ...interface{}) error {
 
 			if err := d.decode(&ll); err != nil {
 				return err
+			}
+
+			if rem := d.remaining(); rem >= 0 && int(ll)*13 > rem {
+				// every qid takes 13 bytes
+				return io.ErrUnexpectedEOF
 			}
 
 			elements := make([]interface{}, int(ll))
